@@ -134,7 +134,15 @@ class Ctx:
                     f"{r.min_instances} confirmed by hand — the rule would pass vacuously")
 
     def findings(self) -> List[Finding]:
-        return [f for r in self.rules if r.armed for f in r.findings]
+        out, seen = [], set()
+        for r in self.rules:
+            if not r.armed:
+                continue
+            for f in r.findings:
+                if f.key not in seen:
+                    seen.add(f.key)
+                    out.append(f)
+        return out
 
 
 def load_known() -> Dict[str, Any]:
